@@ -53,6 +53,15 @@ MCEvAll == MCEvOk \cup {[cls |-> "transport"], Resp(500, AuthOk, X5, [garbage |-
 MCPing == {Resp(200, AuthOk, <<>>, [doc |-> Doc(<<Entry("a", "none", "None", [name |-> "n1"])>>, D77)]),
            [cls |-> "transport"], Resp(200, AuthOk, X5, [garbage |-> "notjson"])}
 
+\* pings under CUP: genuine (with a cohort change and a header), forged with a header, tampered body, an
+\* unauthenticated error status with a header, transport failure
+MCPingCup == {Resp(200, "genuine", X5, [doc |-> Doc(<<Entry("a", "none", "None", [name |-> "n1"])>>, D77)]),
+              Resp(200, "forged", XBig, [doc |-> Doc(<<Entry("a", "none", "None", [name |-> "evil"])>>, D77)]),
+              Resp(200, "tampered", <<>>, [doc |-> Doc(<<Entry("a", "none", "None", [name |-> "evil"])>>, D77)]),
+              Resp(503, "unsigned", XBig, [garbage |-> "empty"]),
+              [cls |-> "transport"]}
+MCUcInstallCup == {Resp(200, "genuine", <<>>, [doc |-> Doc(<<Entry("a", "ok", "2.0.0.0", [id |-> "c9"])>>, D77)])}
+MCEvCup == {Resp(200, "genuine", <<>>, [garbage |-> "noresp"]), Resp(200, "forged", XBig, [garbage |-> "noresp"])}
 CheckOk1 == [d |-> "ok", src |-> "same", dis |-> FALSE, same |-> FALSE, proxy |-> TRUE]
 MCCheckAll == {CheckOk1, [d |-> "okdeferred", src |-> "ondemand", dis |-> TRUE, same |-> TRUE, proxy |-> TRUE],
                [d |-> "toosoon", src |-> "same", dis |-> FALSE, same |-> FALSE, proxy |-> TRUE],
